@@ -52,6 +52,12 @@ def gen_inputs(rng):
             else:
                 g.budget = 4
                 items.append(g.stmt(top))
+        if r.chance(0.3):
+            # a passing test definition: running it must not disturb the toplevel state
+            a = r.randint(0, 9)
+            body = r.choice([f"assert({a} + 1 == {a + 1})", f"let a = {a} assert(a == {a})",
+                             f"let l = [{a}] for x in l {{ assert(x == {a}) }}"])
+            items.insert(r.randint(0, len(items)), f"test t{g.tag}{len(inputs)} {{ {body} }}")
         if not items:
             items.append(g.print_stmt(top))
         inputs.append(items)
@@ -115,8 +121,13 @@ class C11(SessimProp):
         plan = []
         for i in range(len(case["inputs"])):
             p = {"interrupt_at": None, "cmds": [], "burst_with_next": False}
-            if r.chance(0.5):
+            has_test = any(x.startswith("test ") for x in case["inputs"][i])
+            # (an input's tests run before its toplevel expressions and a stop inside a test ends
+            # the request by design, so an interrupt there is not transparent: see DESIGN, C08)
+            if r.chance(0.5) and not has_test:
                 p["interrupt_at"] = r.randint(1, 40)
+            elif has_test:
+                r.randint(1, 40)
             for _ in range(r.weighted([(5, 0), (3, 1), (1, 2)])):
                 p["cmds"].append(r.choice(READONLY))
             if r.chance(0.15):
@@ -125,7 +136,7 @@ class C11(SessimProp):
         return plan
 
     def scenario_incremental(self, case, faulty):
-        srcs = [" ".join(items) if not any(x.startswith(("fun ", "struct ", "enum ", "method ")) for x in items)
+        srcs = [" ".join(items) if not any(x.startswith(("fun ", "struct ", "enum ", "method ", "test ")) for x in items)
                 else "\n".join(items) for items in case["inputs"]]
         steps = []
         marks = []  # index of the step holding each input's (last) response
